@@ -823,6 +823,9 @@ funcexpr(struct func *f, struct expr *e)
 	case EXPRBINARY:
 		l = funcexpr(f, e->u.binary.l);
 		if (e->op == TLOR || e->op == TLAND) {
+			/* the phi names f->end as a source, so it must still be open */
+			if (f->end->jump.kind)
+				funclabel(f, mkblock("dead"));
 			b[0] = mkblock("logic_right");
 			b[1] = mkblock("logic_join");
 			t = e->u.binary.l->type;
@@ -928,11 +931,15 @@ funcexpr(struct func *f, struct expr *e)
 
 		funclabel(f, b[0]);
 		b[2]->phi.val[0] = funcexpr(f, e->u.cond.t);
+		if (f->end->jump.kind)
+			funclabel(f, mkblock("dead"));
 		b[2]->phi.blk[0] = f->end;
 		funcjmp(f, b[2]);
 
 		funclabel(f, b[1]);
 		b[2]->phi.val[1] = funcexpr(f, e->u.cond.f);
+		if (f->end->jump.kind)
+			funclabel(f, mkblock("dead"));
 		b[2]->phi.blk[1] = f->end;
 
 		funclabel(f, b[2]);
